@@ -25,6 +25,7 @@ THEOREMS = [
     "C31.single_thread_ever",
     "C31.ready_fifo",
     "C31.timed_not_early_in_order",
+    "C31.gather_cross_due_order",
     "C31.cancelled_before_check_never_runs",
     "C31.after_dispose_raises_and_nothing_runs",
     "C31.disposed_schedule_raises",
@@ -369,7 +370,10 @@ LEVEL_TEXT = ("Lean theorems over an atomic-step model of EventLoopScheduler (an
               "is_cancelled() read); after the dispose step no schedule call passes the _is_disposed test and the loop gathers nothing more; "
               "pending work implies _thread set, _thread set and not disposed implies that thread is in its loop, an un-notified untimed wait sees "
               "both containers empty (exit_if_empty restarts, no lost wake-up).")
-LEVEL_NOTE = ("Safety invariants only: 'eventually runs' additionally needs a fair OS scheduler (the quiescence oracle checks it on every explored "
+LEVEL_NOTE = ("Cross order timed/immediate: the property text's 'in due-time order' is read as also ordering a timed and an immediately-due "
+              "action that are pending in the same gathering (gather_cross_due_order for timed-before-immediate; the symmetric rule is checked by "
+              "the oracle only when the immediate submissions were themselves made in due order, because a racing/past-due submission legitimately "
+              "leaves the ready list out of due order). Safety invariants only: 'eventually runs' additionally needs a fair OS scheduler (the quiescence oracle checks it on every explored "
               "schedule). Atomicity of the model's steps is validated by the controller (guarded fields only touched under the condition's lock; "
               "each locked section = one model step), not proved. Observed and not claimed wrong: after dispose() a loop thread that was executing "
               "actions may block forever in the untimed wait (the notify was sent while it was not waiting) - a thread leak, outside the property.")
